@@ -115,7 +115,35 @@ def work(shard, rec):
         rec.nt_disjoint += n
     elif k == "pairs":
         rnd = G.rng("c05pairs", shard["seed"], shard["idx"])
+        reused_bg, reused_t = [0, 0, 0], [0, 0, 0]      # caller-owned lists, overwritten in place between calls
         for i in range(shard["n"]):
+            if i % 7 == 0:
+                # the same list objects, mutated in place (e.g. a ramp sweep): the answer must follow the contents
+                reused_bg[:] = G.uniform(rnd) if i % 14 else [min(255, reused_bg[0] + 5)] * 3
+                reused_t[:] = G.uniform(rnd) if i % 21 else reused_t
+                a, b = tuple(reused_t), tuple(reused_bg)
+                try:
+                    got, gl = ratio(reused_t, reused_bg), lum(reused_bg)
+                except Exception as e:
+                    rec.violation(f"calculate_contrast_ratio on list arguments raised {type(e).__name__}: {e}", {"fn": "ratio", "a": list(a), "b": list(b)})
+                    continue
+                rec.count("reused_list_arguments")
+                # ... and again immediately, after overwriting the very same objects (nothing else called in between)
+                for which in (0, 1, 2):
+                    if which != 1:
+                        reused_bg[:] = [min(255, max(0, v + rnd.choice([-40, -7, 9, 60]))) for v in reused_bg]
+                    if which != 0:
+                        reused_t[:] = [min(255, max(0, v + rnd.choice([-50, -5, 11, 70]))) for v in reused_t]
+                    a2, b2 = tuple(reused_t), tuple(reused_bg)
+                    g2 = ratio(reused_t, reused_bg)
+                    rec.count("reused_list_arguments")
+                    if abs(g2 - wcag.ratio(a2, b2)) > REL_TOL * wcag.ratio(a2, b2):
+                        rec.violation(f"calculate_contrast_ratio({list(a2)}, {list(b2)}) = {g2!r} (WCAG {wcag.ratio(a2, b2)!r}) right after a call with the same "
+                                      f"list objects holding other values", {"fn": "ratio", "a": list(a2), "b": list(b2)})
+                if abs(got - wcag.ratio(a, b)) > REL_TOL * wcag.ratio(a, b) or abs(gl - wcag.luminance(b)) > LUM_TOL:
+                    rec.violation(f"calculate_contrast_ratio({list(a)}, {list(b)}) = {got!r} (WCAG {wcag.ratio(a, b)!r}) when the same list objects are reused and "
+                                  f"overwritten in place between calls", {"fn": "ratio", "a": list(a), "b": list(b)})
+                continue
             if i % 10 == 0:
                 g = G.near_threshold(rnd, band=0.002)
                 if not g:
@@ -134,6 +162,7 @@ def work(shard, rec):
     elif k == "labels":
         labels(shard, rec, lib, con)
         bulk_status_after_fixing(shard, rec, lib)
+        bulk_mixed_shapes(shard, rec, lib)
     elif k == "side":
         side(shard, rec, lib, con)
 
@@ -249,6 +278,48 @@ def bulk_status_after_fixing(shard, rec, lib):
                           f"{r:.4f} -> {sorted(wants)}", case)
 
 
+def bulk_mixed_shapes(shard, rec, lib):
+    """Status labels inside lists that mix 2- and 3-element entries: every entry is labelled at its *own* text size."""
+    from cmv import pairwork as PW
+    rnd = G.rng("c05bulkmixed", shard["seed"])
+    for i in range(300):
+        entries, meta = [], []
+        for j in range(rnd.choice([2, 3, 4])):
+            large = rnd.random() < 0.5
+            g = G.near_threshold(rnd, thr=rnd.choice([3.0, 4.5]), band=0.12)
+            if not g:
+                continue
+            t, b = g[0], g[1]
+            if large or rnd.random() < 0.3:
+                entries.append((t, b, large))
+            else:
+                entries.append((t, b))
+                large = False
+            meta.append((t, b, large))
+        mode, vr = i % 3, bool(i & 1)
+        case = {"fn": "bulk_mixed", "entries": [repr(e) for e in entries], "mode": mode, "vr": vr}
+        rec.ev()
+        try:
+            res = lib.make_readable_bulk(entries, mode=mode, very_readable=vr)
+        except Exception as e:
+            rec.violation(f"make_readable_bulk({entries!r}) raised {type(e).__name__}: {e}", case)
+            continue
+        for (col, st), (t, b, large), e in zip(res, meta, entries):
+            rb = PW.readback(col)
+            if rb is None:
+                continue
+            r = wcag.ratio(rb, b)
+            wants = {wcag.LABEL[wcag.level(r, large)]}
+            for th in (3.0, 4.5, 7.0):
+                if abs(r - th) <= wcag.RATIO_BAND * th:
+                    wants |= {wcag.LABEL[wcag.level(th, large)], wcag.LABEL[wcag.level(th - 1e-6, large)]}
+            rec.count("bulk_mixed_status_checked")
+            if st not in wants:
+                rec.violation(f"make_readable_bulk({entries!r}, mode={mode}, very_readable={vr}): entry {e!r} -> ({col!r}, {st!r}); its ratio {r:.4f} at "
+                              f"{'large' if large else 'normal'} size -> {sorted(wants)}", case)
+        rec.nontrivial(("bulkmixed", repr(entries), mode, vr))
+
+
 def side(shard, rec, lib, con):
     """Contracts on luminance / ratio, live while the optimiser runs."""
     def lum_post(rgb, result):
@@ -306,6 +377,10 @@ def replay(case):
         got, want = con.get_contrast_level(case["v"], case["large"]), wcag.level(case["v"], case["large"])
         print(f"get_contrast_level({case['v']!r},{case['large']}): library {got!r} oracle {want!r}")
         return got == want
+    if case["fn"] == "bulk_mixed":
+        entries = [eval(e) for e in case["entries"]]
+        print("bulk:", lib.make_readable_bulk(entries, mode=case["mode"], very_readable=case["vr"]))
+        return True
     t, b = tuple(case["t"]), tuple(case["b"])
     if case["fn"] == "bulk_fix":
         from cmv import pairwork as PW
